@@ -1,15 +1,18 @@
 //! scenario families, one per property
 
 pub mod c01;
+pub mod c02;
 pub mod c03;
 
 use crate::engine::Cfg;
 
-pub const SCENARIOS: &[&str] = &["c01", "c03"];
+pub const SCENARIOS: &[&str] = &["c01", "c02a", "c02b", "c03"];
 
 pub fn run(name: &str, seed: u64, ov: impl FnMut(&mut Cfg)) -> ! {
     match name {
         "c01" => c01::run(seed, ov),
+        "c02a" => c02::run_a(seed, ov),
+        "c02b" => c02::run_b(seed, ov),
         "c03" => c03::run(seed, ov),
         _ => {
             eprintln!("unknown scenario {}", name);
